@@ -136,6 +136,9 @@ pub fn check_point_t(sp: &Spec, p: &EdwardsPoint, m: &Pt, aj: &Option<(U, u8)>, 
     if bool::from(p.ct_eq(&EdwardsPoint::identity())) != m_id {
         return Err("ct_eq(identity) disagrees".into());
     }
+    if bool::from(group::Group::is_identity(p)) != m_id {
+        return Err(format!("group::Group::is_identity = {} want {}", !m_id, m_id));
+    }
     if p.is_small_order() != m_small {
         return Err(format!("is_small_order = {} want {}", p.is_small_order(), m_small));
     }
@@ -474,7 +477,7 @@ pub fn run(ctx: &Ctx) {
     for j in 0..8 {
         inits.push(Known { name: format!("EIGHT_TORSION[{}]", j), pt: ed::torsion()[j], aj: Some((U::ZERO, j as u8)), real: real::real_torsion(j) });
     }
-    let depth = if quick { 2 } else { 3 };
+    let depth = if quick { 2 } else if ctx.deep { 4 } else { 3 };
     ctx.bound("machine_depth", json!(depth));
     ctx.bound("machine_pool", json!(mpool.len()));
     ctx.bound("machine_inits", json!(inits.len()));
